@@ -452,6 +452,9 @@ def sem_sx(spec, names) -> str:
     return '(sem ' + one(default) + ''.join(f' ({names[r]} {one(methods[m])})' for r, m in res.items() if m not in (None, '_default')) + ')'
 
 
+LAST_FAILURE = None
+
+
 def run_impl(model, text: str, start: str | None, settings: Settings, semantics=None, timeout=5.0):
     """-> ('ok', canon) | ('fail', None) | ('exc', class name) | ('recursion', None) | ('timeout', None)"""
     from tatsu.exceptions import FailedParse, ParseException
@@ -471,7 +474,9 @@ def run_impl(model, text: str, start: str | None, settings: Settings, semantics=
             else:
                 v = model.parse(text, start=start, semantics=semantics, **kw)
             result.append(('ok', canon(v)))
-        except FailedParse:
+        except FailedParse as e:
+            global LAST_FAILURE
+            LAST_FAILURE = (type(e).__name__, getattr(e, 'pos', None))      # side channel: class and position of the reported failure
             result.append(('fail', None))
         except RecursionError:
             result.append(('recursion', None))
